@@ -2,8 +2,10 @@ package props
 
 import (
 	"fmt"
-	"github.com/remieven/ysgo/variable"
 	"strings"
+
+	"github.com/remieven/ysgo"
+	"github.com/remieven/ysgo/variable"
 
 	"github.com/remieven/ysgo/verifharness/core"
 	"github.com/remieven/ysgo/verifharness/hast"
@@ -20,7 +22,7 @@ func (c17) ID() string { return "C17" }
 
 // EvalFeatures names the counters of judged executions.
 func (c17) EvalFeatures() []string {
-	return []string{"commands", "unregistered-name-is-error", "k3-commands", "commands-executed-again", "two-runners-separate-registries"}
+	return []string{"commands", "unregistered-name-is-error", "k3-commands", "commands-executed-again", "two-runners-separate-registries", "handlers-registered-in-mid-run"}
 }
 
 func (c17) Cases(tier string) int {
@@ -63,6 +65,7 @@ func (c17) Thresholds(tier string) map[string]int64 {
 		"sep:none-between-two-expressions": 300,
 		"commands-executed-again":          3000,
 		"two-runners-separate-registries":  800,
+		"handlers-registered-in-mid-run":   800,
 	}
 	for _, w := range c17HostileWords {
 		th["hostile:"+w] = 20
@@ -74,7 +77,7 @@ func (c17) Thresholds(tier string) map[string]int64 {
 }
 
 func (c17) Rule() string {
-	return "case = one script of 30 generic commands <<name arg ...>> separated by lines, each registered under its name with a logging raw handler, plus one command under an unregistered name (must be an error) and a final <<stop>> with a handler registered under 'stop' (must never be invoked). Names: plain identifiers incl. multi-byte, and every keyword as a prefix (" + strings.Join(c17KeywordNames, ", ") + "); words: a hostile pool (" + strings.Join(c17HostileWords, " ") + ") and plain words incl. multi-byte and punctuation; {expression} arguments of each type surrounded by blanks; separators: single blank, runs of blanks, tabs, mixtures, also before >>. Oracle: the handler log (name, typed argument list, once, in order) equals the model's: a word is a boolean iff it is exactly true/false, a number iff it matches -?[0-9]+(\\.[0-9]+)?, otherwise a string; expressions arrive as their value. The raw handlers keep the argument slices they receive; at the end of the script each is compared with what it held when it was received. Further sub-workloads: two {expressions} written back to back (two arguments, nothing between them); a node that runs 2-5 commands over compound expressions of $n/$b/$s, changes the variables and jumps back to itself (every execution must deliver the values as they evaluate then); two runners over one script where the second registers another handler under the same name or none (each command reaches the handler of its own runner; a name registered only elsewhere is an error). Non-trivial: >=2 arguments of >=2 expected types, or a keyword-prefixed name, or a hostile word. Distinct by hash of the command's source text. Names beginning with else/endif/endenum are the known finding K3 and run in a sub-workload of their own."
+	return "case = one script of 30 generic commands <<name arg ...>> separated by lines, each registered under its name with a logging raw handler, plus one command under an unregistered name (must be an error) and a final <<stop>> with a handler registered under 'stop' (must never be invoked). Names: plain identifiers incl. multi-byte, and every keyword as a prefix (" + strings.Join(c17KeywordNames, ", ") + "); words: a hostile pool (" + strings.Join(c17HostileWords, " ") + ") and plain words incl. multi-byte and punctuation; {expression} arguments of each type surrounded by blanks; separators: single blank, runs of blanks, tabs, mixtures, also before >>. Oracle: the handler log (name, typed argument list, once, in order) equals the model's: a word is a boolean iff it is exactly true/false, a number iff it matches -?[0-9]+(\\.[0-9]+)?, otherwise a string; expressions arrive as their value. The raw handlers keep the argument slices they receive; at the end of the script each is compared with what it held when it was received. Further sub-workloads: two {expressions} written back to back (two arguments, nothing between them); a node that runs 2-5 commands over compound expressions of $n/$b/$s, changes the variables and jumps back to itself (every execution must deliver the values as they evaluate then); two runners over one script where the second registers another handler under the same name or none (each command reaches the handler of its own runner; a name registered only elsewhere is an error); a runner whose host replaces one handler and registers another under a new name in mid-run - right after a line, while a choice is awaited, or after a restore to its own snapshot, and after the first handler served 1-5 times (every later command statement reaches the handler registered under its name by then). Non-trivial: >=2 arguments of >=2 expected types, or a keyword-prefixed name, or a hostile word. Distinct by hash of the command's source text. Names beginning with else/endif/endenum are the known finding K3 and run in a sub-workload of their own."
 }
 
 func (c17) Assumptions() []string {
@@ -429,6 +432,96 @@ func (p c17) Run(c *core.Ctx) {
 			return
 		}
 		c.Feature("two-runners-separate-registries")
+	}
+
+	// ---- the host registers, and replaces, handlers while the dialogue is under way: a command statement
+	// reaches the handler registered under its name AT THE TIME THE STATEMENT RUNS
+	{
+		a := c17PlainNames[r.Intn(len(c17PlainNames))]
+		b := a
+		for b == a {
+			b = c17PlainNames[r.Intn(len(c17PlainNames))]
+		}
+		reps := r.Range(1, 5) // how often the first handler serves before it is replaced
+		when := r.Intn(3)     // 0 right after a line, 1 while a choice is awaited, 2 after a restore to the own snapshot
+		var src strings.Builder
+		src.WriteString("title: Start\n---\n")
+		for i := 0; i < reps; i++ {
+			fmt.Fprintf(&src, "<<%s %d>>\n", a, i)
+		}
+		switch when {
+		case 1:
+			src.WriteString("-> one\n    chosen\n-> two\n    not chosen\n")
+		default:
+			src.WriteString("before\n")
+		}
+		fmt.Fprintf(&src, "<<%s second true>>\n<<%s first -2.5>>\n<<%s again>>\nafter\n===\n", a, b, a)
+		script := src.String()
+		st := mon.NewRecStorer()
+		run, err, pan := mon.Create(st, "", []string{script})
+		if err != nil || pan != "" {
+			c.Violate("a script of generic commands failed to load", map[string]any{"readers": []string{script}, "error": fmt.Sprint(err), "panic": pan})
+			return
+		}
+		var log []string
+		handler := func(tag string) ysgo.YarnSpinnerCommand {
+			return func(args []*variable.Value) <-chan error {
+				log = append(log, tag+"("+render(args)+")")
+				ch := make(chan error, 1)
+				ch <- nil
+				return ch
+			}
+		}
+		run.DR.AddCommand(a, handler(a+"#1"))
+		var want []string
+		for i := 0; i < reps; i++ {
+			want = append(want, fmt.Sprintf("%s#1(n:%d)", a, i))
+		}
+		fail := func(what string, o mon.Obs) {
+			c.Violate("handlers registered or replaced while the dialogue is under way: "+what, map[string]any{
+				"readers": []string{script}, "registered_in_mid_run_when": []string{"after a line", "while a choice is awaited", "after a restore"}[when],
+				"observed": o.String(), "handler_log": log, "expected_handler_log": want})
+		}
+		o := run.Next(0)
+		if when == 1 {
+			if o.Kind != mon.KOptions {
+				fail("the option group was not presented", o)
+				return
+			}
+		} else if o.Kind != mon.KLine || o.Text != "before" {
+			fail("the first line was not presented", o)
+			return
+		}
+		if when == 2 {
+			if err := run.RestoreAt(run.DR.Snapshot()); err != nil {
+				fail("restoring the runner from its own snapshot failed: "+err.Error(), o)
+				return
+			}
+			for i := 0; i < reps; i++ {
+				want = append(want, fmt.Sprintf("%s#1(n:%d)", a, i))
+			}
+			if o = run.Next(0); o.Kind != mon.KLine || o.Text != "before" {
+				fail("the first line was not presented again after the restore", o)
+				return
+			}
+		}
+		// now the host changes its mind
+		run.DR.AddCommand(a, handler(a+"#2"))
+		run.DR.AddCommand(b, handler(b+"#1"))
+		want = append(want, a+`#2(s:"second",b:true)`, b+`#1(s:"first",n:-2.5)`, a+`#2(s:"again")`)
+		if when == 1 {
+			if o = run.Next(0); o.Kind != mon.KLine || o.Text != "chosen" {
+				fail("the chosen option's body was not run", o)
+				return
+			}
+		}
+		o = run.Next(0)
+		if o.Kind != mon.KLine || o.Text != "after" || strings.Join(log, " ") != strings.Join(want, " ") {
+			fail("the commands after the registration did not reach the handlers registered by then, once each, in order", o)
+			return
+		}
+		c.Feature("handlers-registered-in-mid-run")
+		c.Feature(fmt.Sprintf("mid-run-registration-when:%d", when))
 	}
 
 	// ---- K3 sub-workload
